@@ -22,13 +22,19 @@ pub struct FftCase {
 }
 
 pub fn gen_fft_case(ctx: &mut Ctx, max_log: usize) -> FftCase {
+    gen_fft_case_len(ctx, max_log, false)
+}
+
+/// `wide`: shards of 4 .. 9 blocks (block loops of the kernels with every remainder) on smaller transforms
+pub fn gen_fft_case_len(ctx: &mut Ctx, max_log: usize, wide: bool) -> FftCase {
+    let max_log = if wide { max_log.min(6) } else { max_log };
     let n = ctx.rng.below(max_log + 1);
     let size = 1usize << n;
     let inverse = ctx.rng.chance(1, 2);
     let pos = if ctx.rng.chance(1, 2) { 0 } else { ctx.rng.below(3) * size + if ctx.rng.chance(1, 4) { ctx.rng.below(5) } else { 0 } };
     let tail = ctx.rng.below(3);
     let count = pos + size + tail;
-    let len64 = ctx.rng.range(1, 3);
+    let len64 = if wide { ctx.rng.range(4, 9) } else { ctx.rng.range(1, 3) };
     let trunc = match ctx.rng.below(5) {
         0 => size,
         1 => 1.min(size),
@@ -116,7 +122,8 @@ pub fn run(ctx: &mut Ctx) {
     let mut src_q: Vec<String> = vec![];
     let mut src_expect: Vec<(String, Vec<u16>, Vec<bool>)> = vec![];
     for i in 0..n_fft {
-        let c = gen_fft_case(ctx, if i % 50 == 0 { 12 } else { 8 });
+        let c = gen_fft_case_len(ctx, if i % 50 == 0 { 12 } else { 8 }, i % 50 != 0 && i % 5 == 3);
+        ctx.count("blocks_per_shard", &c.len64.to_string());
         let outs: Vec<Vec<[u8; 64]>> = prims.iter().map(|(_, p)| run_fft(p.as_ref(), &c)).collect();
         ctx.evaluations += 1;
         ctx.distinct.insert(ctx.rng.0 ^ i as u64);
